@@ -286,7 +286,7 @@ func rectilinear3(k int, combos [][3]bool, barsInsideOuterOnly bool) [][][]oracl
 // nestings: chains of k rectangles, each strictly inside the previous one (concentric or pushed
 // into a corner of its parent), in every combination of orientations: islands inside holes
 // inside islands.
-func nestings(k int) [][][]oracle.Pt {
+func Nestings(k int) [][][]oracle.Pt {
 	type rc struct{ x0, y0, x1, y1 float64 }
 	var out [][][]oracle.Pt
 	var rec func(chain []rc)
@@ -463,8 +463,8 @@ func families(tier string) []fw.Family {
 		family("rectilinear outer+inner+bar (L5), CCW/CW/CCW", rectilinear3(5, [][3]bool{{true, false, true}}, true), 1, 1e-8, 1e-6, false),
 		family("square with two separate inner rectangles (L7), both clockwise", TwoHoles([][2]bool{{false, false}}), 1, 1e-8, 1e-6, false),
 		curvedFamily(),
-		family("nested rectangles, 3 levels, all orientations", nestings(3), 1, 1e-8, 1e-6, false),
-		family("nested rectangles, 4 levels, all orientations", nestings(4), 1, 1e-8, 1e-6, false),
+		family("nested rectangles, 3 levels, all orientations", Nestings(3), 1, 1e-8, 1e-6, false),
+		family("nested rectangles, 4 levels, all orientations", Nestings(4), 1, 1e-8, 1e-6, false),
 		family("quad(L3)/rot, coarse grid eps=0.25 on x4 lattice", single(oracle.ContoursModRotation(L3, 4)), 4, 0.25, 0.5, false),
 		family("closed walks of 4 steps revisiting a vertex (L4)", single(oracle.WalksModRotation(L4, 4)), 1, 1e-8, 1e-6, false),
 		family("closed walks of 5 steps revisiting a vertex (L3)", single(oracle.WalksModRotation(L3, 5)), 1, 1e-8, 1e-6, false),
@@ -475,7 +475,7 @@ func families(tier string) []fw.Family {
 	if tier == "thorough" {
 		fs = append(fs,
 			family("square with two separate inner rectangles (L7), all orientations", TwoHoles([][2]bool{{false, false}, {true, false}, {false, true}, {true, true}}), 1, 1e-8, 1e-6, false),
-			family("nested rectangles, 5 levels, all orientations", nestings(5), 1, 1e-8, 1e-6, false),
+			family("nested rectangles, 5 levels, all orientations", Nestings(5), 1, 1e-8, 1e-6, false),
 			family("pent(L4)/rot", single(oracle.ContoursModRotation(L4, 5)), 1, 1e-8, 1e-6, false),
 			family("hex(L3)/rot", single(oracle.ContoursModRotation(L3, 6)), 1, 1e-8, 1e-6, false),
 			family("tri(L3) + tri(L3) (two contours, all start vertices)", pairs(oracle.Contours(L3, 3), oracle.Contours(L3, 3)), 1, 1e-8, 1e-6, false),
